@@ -979,6 +979,19 @@ func evalC17(c string) Result {
 
 func genC17OnceCase(rng *rand.Rand, big bool) c17OnceCase {
 	c := c17OnceCase{slow: map[int]bool{}, seed: rng.Uint64N(1 << 32)}
+	if !big && rng.IntN(40) == 0 {
+		// more slow constructions in progress than there are processors (any limit on running
+		// constructors is reached), and a few callers of fast keys that must not wait for them
+		ns := runtime.NumCPU() + pick(rng, 1, 4, 17)
+		for k := 0; k < ns; k++ {
+			c.slow[k] = true
+			c.seqs = append(c.seqs, []int{k})
+		}
+		for k := ns; k < ns+3; k++ {
+			c.seqs = append(c.seqs, []int{k}, []int{k, ns})
+		}
+		return c
+	}
 	g := pick(rng, 2, 2, 3, 4, 6, 8, 12)
 	if big {
 		g = pick(rng, 24, 48, 64)
